@@ -238,6 +238,10 @@ def _gen_recv(rng, tier):
             ops.append(['recv_close', rng.choice(['unset', None, 0, 1, 3, 10, len(stream), max(0, len(stream) - 1)])])
     if timeout is not None and rng.random() < 0.3:
         ops = [(op + [{'abandon': True}]) if rng.random() < 0.4 else op for op in ops]
+    if rng.random() < 0.08:
+        # a second BufferedSocket is put around the first in mid-stream (what NetstringSocket(bsock) or a protocol
+        # upgrade does): the receive side of a BufferedSocket honours the socket contract, so the stream goes on
+        ops.insert(rng.randint(0, len(ops)), ['rewrap', rng.choice([None, 1, 3, 64])])
     recv_errors = []
     if rng.random() < 0.15:
         import errno as _e
@@ -731,9 +735,11 @@ def _run_recv(case):
     nsteps = 0
     ops = list(case['ops']) + [['recv_close', None]]       # final drain: nothing may be lost
 
+    layers = [bs]
+
     def conserve(where, i):
         try:
-            buf = bs.getrecvbuffer()
+            buf = b''.join(bytes(l.getrecvbuffer()) for l in reversed(layers))
         except Exception as e:       # pragma: no cover
             return out.fail('unexpected-exception', i, 'getrecvbuffer raised %r' % (e,), op='getrecvbuffer')
         rest = bytes(buf) + sock.undelivered()
@@ -756,6 +762,19 @@ def _run_recv(case):
             bs.setmaxsize(op[1])
             cur_maxsize = op[1]
             log.add('op', i, 'setmaxsize', op[1])
+            continue
+        if op[0] == 'rewrap':
+            kw2 = {'timeout': cur_timeout}
+            if cur_maxsize is not None:
+                kw2['maxsize'] = cur_maxsize
+            if op[1] is not None:
+                kw2['recvsize'] = op[1]
+            bs = su.BufferedSocket(bs, **kw2)
+            if cur_maxsize is None:
+                bs.setmaxsize(None)         # the constructor wants a number; "no limit" is set afterwards
+            layers.append(bs)
+            out.probe('second_wrapper_in_mid_stream')
+            log.add('op', i, 'rewrap', op[1])
             continue
         has_to, to = _op_timeout(op)
         eff_timeout = to if has_to else cur_timeout
